@@ -89,6 +89,13 @@ package fuse
 //@   call ReadAt#2 assert [window] $p == destination && $off == offset
 //@   call ReadAt#2 bind n2 = $ret0
 //@   ensures [count-as-read] (n1_set ==> ret0 == n1) && (n2_set ==> ret0 == n2)
+//@   call ReadAt#1 bind re1 = $ret1
+//@   call ReadAt#2 bind re2 = $ret1
+//@   call errNotEOF#1 assert [of-the-read-error] re1_set && $err == re1
+//@   call errNotEOF#1 bind bad1 = $ret0
+//@   call errNotEOF#2 assert [of-the-read-error] re2_set && $err == re2
+//@   call errNotEOF#2 bind bad2 = $ret0
+//@   ensures [failed-read-is-an-error] ((bad1_set && bad1) || (bad2_set && bad2)) ==> ret1 != nil
 
 //@ func (*readOnlyFsInternal).LookUpInode
 //@   call formLookupKey#1 assert [parent-and-name] $id == op.Parent && $childName == op.Name
@@ -150,3 +157,11 @@ package fuse
 //@   ensures [fresh-inodes] forall j int :: old(len(p.nodesToAdd)) <= j && j < len(p.nodesToAdd) ==> old(deref(p.iNode)) < p.nodesToAdd[j].FsEntry.iNode && p.nodesToAdd[j].FsEntry.iNode <= deref(p.iNode)
 //@   ensures [increasing] forall j int :: old(len(p.nodesToAdd)) <= j && j + 1 < len(p.nodesToAdd) ==> p.nodesToAdd[j].FsEntry.iNode < p.nodesToAdd[j+1].FsEntry.iNode
 //@   ensures [file-first] p.nodesToAdd[old(len(p.nodesToAdd))].FsEntry.fullPath == be.NameWithPath && p.nodesToAdd[old(len(p.nodesToAdd))].FsEntry.hash == be.Hash
+
+// ---- read-only mount: a failed read is an error (C17: "returns exactly the corresponding bytes") -------
+// only the plain end-of-file condition is not an error; any other failure of the underlying read
+// (a truncated blob: "unexpected EOF", an I/O error) is reported to the kernel as EIO, never as a
+// successful short read
+//@ func errNotEOF
+//@   call Error#1 bind msg = $ret0
+//@   ensures [only-plain-eof-is-not-an-error] result == (err != nil && msg_set && msg != "EOF")
